@@ -89,25 +89,31 @@ TEMPLATES = {
     "grbl-probe": ("[PRB:{0},{1},{2}:1]", {"X": 0, "Y": 1, "Z": 2}),
 }
 SAMPLES = ["101.25", "-102.5", "103.75", "104.125", "105.5", "-106.25", "107.0"]
+SAMPLES2 = ["-201.5", "202.25", "-203.125", "204.75", "-205.5", "206.25", "207.5"]   # second report
 
 
 def _make(name, scenario):
     text, expected = TEMPLATES[name]
 
     def h(v0: Finite, v1: Finite, v2: Finite, v3: Finite, v4: Finite, v5: Finite, v6: Finite,
-          old_x: Finite, old_t: Finite, old_q: Finite):
+          u0: Finite, u1: Finite, u2: Finite, u3: Finite, old_x: Finite, old_t: Finite, old_q: Finite):
         vals = [v0, v1, v2, v3, v4, v5, v6]
+        vals2 = [u0, u1, u2, u3, v4, v5, v6]      # a second report with other values
         w = pw_mod.PrintrunWriter("serial", "host", "port", 250000)
         w._current_params["X"] = old_x
         w._current_params["T"] = old_t
         w._current_params["Q"] = old_q
         message = text.format(*SAMPLES)
+        message2 = text.format(*SAMPLES2)
         old_pat, had_float = pw_mod.VALUE_PATTERN, hasattr(pw_mod, "float")
         if MODE.symbolic:
-            pw_mod.VALUE_PATTERN = PatternShim(old_pat, dict(zip(SAMPLES, vals)))
+            table = dict(zip(SAMPLES, vals))
+            table.update(zip(SAMPLES2, vals2))
+            pw_mod.VALUE_PATTERN = PatternShim(old_pat, table)
             pw_mod.float = _float_shim
         else:
             vals = [float(s) for s in SAMPLES]
+            vals2 = [float(s) for s in SAMPLES2]
         try:
             if scenario == "after-unrelated":
                 w._on_device_message("echo:busy: processing")
@@ -116,7 +122,10 @@ def _make(name, scenario):
             w._device_error = None
             w._on_device_message(message + "\n")
             if scenario == "twice":
-                w._on_device_message(message)
+                # the same kind of report again, with other values: the new ones must win
+                w._ack_event.clear()
+                w._on_device_message(message2)
+                vals, message = vals2, message2
         except Exception as e:  # noqa: BLE001
             msg = f"{type(e).__name__}: {e}"
             return V("receive-callback-raised", msg)
